@@ -91,6 +91,11 @@ class World(object):
         """Materialise an argument spec for an actor."""
         ctx = self.actors[actor]
         t = spec['t']
+        if t in ('mpf', 'mpc') and spec.get('owner') in self.actors and spec['owner'] != actor:
+            # a number that belongs to another context handed to this one (C38: the receiving
+            # context must compute with it as with its own number of the same value)
+            self.stats['foreign_operands'] = self.stats.get('foreign_operands', 0) + 1
+            return self.mat(spec['owner'], dict((k, v) for k, v in spec.items() if k != 'owner'))
         if t == 'int':
             return int(spec['v'])
         if t == 'bool':
